@@ -56,6 +56,7 @@ QUICK_PLAN = [('plain', 'sphere'), ('plain', 'steps'), ('plain', 'rosen'),
               ('monitors', 'sphere'), ('logging', 'sphere'), ('limit_gen', 'sphere'), ('limit_eval', 'sphere'),
               ('reconf_pen_mon', 'sphere'), ('reconf_box_lim', 'sphere')]
 THOROUGH_COSTS = ['sphere', 'steps', 'rosen', 'absum', 'infwall']
+THOROUGH_CORE = ('plain', 'box_con_pen', 'monitors', 'limit_gen')     # all costs, all double chains; the rest: 2 costs, 4 chains
 
 SINGLE = ['dill.dumps/dill.loads', 'dill.copy', 'copy.deepcopy', 'SaveSolver/LoadSolver', 'SaveSolver/dill.load']
 SINGLE_THOROUGH = ['SaveSolver()/LoadSolver(_state=)'] + SINGLE     # file name chosen by the solver, restored by keyword
@@ -67,10 +68,9 @@ DOUBLE = {'SaveSolver/LoadSolver': ['SaveSolver/LoadSolver', 'dill.dumps/dill.lo
           'dill.dumps/dill.loads': ['SaveSolver/LoadSolver', 'SaveSolver/dill.load'],
           'dill.copy': ['dill.dumps/dill.loads', 'dill.copy']}
 DOUBLE_QUICK = {'SaveSolver/LoadSolver': ['SaveSolver/LoadSolver', 'copy.deepcopy'],
-                'dill.dumps/dill.loads': ['SaveSolver/dill.load'],
-                'dill.copy': ['dill.dumps/dill.loads']}
-PERIODIC_RESTORES = ['LoadSolver', 'dill.load']
-FREQS = [1, 2, 3]
+                'dill.dumps/dill.loads': ['SaveSolver/dill.load']}
+PERIODIC_QUICK = {1: ['LoadSolver', 'dill.load'], 2: ['LoadSolver'], 3: ['LoadSolver']}
+PERIODIC_FULL = {1: ['LoadSolver', 'dill.load'], 2: ['LoadSolver', 'dill.load'], 3: ['LoadSolver', 'dill.load']}
 STARTS = {'rosen': {2: [-1.2, 1.0], 3: [-1.2, 1.0, 0.7]}}
 
 
@@ -109,6 +109,12 @@ class Bench(object):
         self.tmp = tmp
         self.serial = 0
         self.cleanup = []       # files the solver itself created outside the shard's temp dir
+        if cfg.get('constraint') == 'symbolic':
+            # building the symbolic constraint draws random test points (simplify); it is cached per process, so
+            # build it before the reference run - otherwise only the first Lab of a process would consume those draws
+            from mc import env
+            with env.owned_random(env.SeededRandom(0)):
+                solverlab.cached('symbolic_con', solverlab.symbolic_con)
         lab = self.lab()
         self.ref = [cn.fields(lab.solver)]
         self.msgs = [None]
@@ -595,8 +601,8 @@ def shard(item):
             run_single(b, k, plan['single'], T)
             if cfg.get('limits') is not None:
                 run_solve(b, k, ['SaveSolver/LoadSolver', 'dill.dumps/dill.loads', 'dill.copy'], T)
-        for f in (plan['freqs'] if not b.midrun else ()):      # (periodic dumps are exercised on unreconfigured runs)
-            run_periodic(b, f, PERIODIC_RESTORES, T)
+        for f in (sorted(plan['periodic']) if not b.midrun else ()):      # (periodic dumps are exercised on unreconfigured runs)
+            run_periodic(b, f, plan['periodic'][f], T)
         for k1 in range(n - 1):
             for first in sorted(plan['double']):
                 run_double(b, k1, first, plan['double'][first], T)
@@ -617,22 +623,27 @@ def _cleanup(tmp, b):
 
 def plan_of(ctx):
     n = 12 if ctx.thorough else 8
-    plan = {'freqs': FREQS, 'double': DOUBLE if ctx.thorough else DOUBLE_QUICK, 'single': SINGLE_THOROUGH if ctx.thorough else SINGLE}
+    plan = {'periodic': PERIODIC_FULL if ctx.thorough else PERIODIC_QUICK, 'double': DOUBLE if ctx.thorough else DOUBLE_QUICK,
+            'single': SINGLE_THOROUGH if ctx.thorough else SINGLE}
     items = []
     if not ctx.thorough:
         for solver in solverlab.SOLVERS:
             for conf, cost in QUICK_PLAN:
                 items.append((make_cfg(solver, conf, cost, 2, ctx.seed), n, plan))
     else:
+        lean = dict(plan, double=DOUBLE_QUICK)
         for solver in solverlab.SOLVERS:
             for conf in CONFIGS:
-                costs = THOROUGH_COSTS if conf != 'reducer' else ['vec']
+                core = conf in THOROUGH_CORE
+                costs = ['vec'] if conf == 'reducer' else (THOROUGH_COSTS if core else ['sphere', 'rosen'])
                 for cost in costs:
-                    dims = (2, 3) if conf in ('plain', 'box_con_pen', 'clip_random') and cost in ('sphere', 'rosen') else (2,)
+                    dims = (2, 3) if conf in ('plain', 'box_con_pen') and cost in ('sphere', 'rosen') else (2,)
                     for dim in dims:
-                        seeds = (ctx.seed, ctx.seed + 1) if (solver.startswith('DE') or conf == 'clip_random') and cost == 'sphere' else (ctx.seed,)
+                        seeds = (ctx.seed, ctx.seed + 1) if conf in ('plain', 'box_con_pen', 'clip_random') and cost == 'sphere' and dim == 2 else (ctx.seed,)
                         for seed in seeds:
-                            items.append((make_cfg(solver, conf, cost, dim, seed), n, plan))
+                            items.append((make_cfg(solver, conf, cost, dim, seed), n, plan if core else lean))
+    heavy = {'Powell': 0, 'DE2': 1, 'DE': 2, 'NM': 3}
+    items.sort(key=lambda it: heavy[it[0]['solver']])      # longest shards first (stable within a solver)
     return n, items
 
 
@@ -645,8 +656,8 @@ def run(ctx):
                   'solvers': list(solverlab.SOLVERS), 'configurations': sorted(set(it[0]['conf'] for it in items)),
                   'costs': sorted(set(it[0]['cost'] for it in items)), 'dims': sorted(set(it[0]['dim'] for it in items)),
                   'seeds': sorted(set(it[0]['seed'] for it in items)), 'configuration_shards': len(items),
-                  'single_transfers': (SINGLE_THOROUGH if ctx.thorough else SINGLE) + ['copy.copy'], 'periodic_frequencies': FREQS, 'periodic_restores': PERIODIC_RESTORES,
-                  'double_chains(first -> seconds)': DOUBLE if ctx.thorough else DOUBLE_QUICK,
+                  'single_transfers': (SINGLE_THOROUGH if ctx.thorough else SINGLE) + ['copy.copy'], 'periodic(frequency -> restore paths)': PERIODIC_FULL if ctx.thorough else PERIODIC_QUICK,
+                  'double_chains(first -> seconds)': DOUBLE_QUICK if not ctx.thorough else {'core configurations %s' % (THOROUGH_CORE,): DOUBLE, 'other configurations': DOUBLE_QUICK},
                   'solve_continuation': 'configurations with limits: Solve() on original and restored from every k'}
     ctx.rule = ("a case = one (configuration, crash point(s), save path, restore path) resumed run; `states` = distinct canonical forms of "
                 "reference boundaries and restored objects; a case is non-trivial when the restored object executed at least one real "
@@ -679,7 +690,7 @@ def replay(case):
         elif mode == 'solve':
             run_solve(b, case['k'], [case['transfer']], T)
         elif mode == 'periodic':
-            run_periodic(b, case['f'], [case['restore']] if 'restore' in case else PERIODIC_RESTORES, T, only_j=case.get('dump_step'))
+            run_periodic(b, case['f'], [case['restore']] if 'restore' in case else PERIODIC_FULL[case['f']], T, only_j=case.get('dump_step'))
         elif mode == 'double':
             run_double(b, case['k1'], case['first'], [case['second']], T, only_k2=case['k2'])
     finally:
